@@ -33,6 +33,10 @@ type Ctx struct {
 	Files        []string
 	GOARCH       string
 	wordBits     int
+	NormNotes    []string // what the normalisation step did (normalize.go)
+
+	wrapOK        bool
+	sentinelCache map[*ssa.Global]bool
 }
 
 func baseEnv() []string {
@@ -46,6 +50,34 @@ func baseEnv() []string {
 		env = append(env, e)
 	}
 	return append(env, "GOFLAGS=-mod=mod", "GOPROXY=off", "GOSUMDB=off", "GOTOOLCHAIN=local", "GOWORK=off", "GOOS=linux")
+}
+
+// LoadNormalized: Load after inlining the call sites of new helper functions (normalize.go). If the normalised source
+// does not load, the tree is analysed as written.
+func LoadNormalized(dir, goarch string, tags []string) (*Ctx, error) {
+	if os.Getenv("MQTTCHECK_NO_NORMALIZE") != "" {
+		return Load(dir, goarch, tags, nil)
+	}
+	overlay, notes := Normalize(dir, goarch, tags)
+	if d := os.Getenv("MQTTCHECK_DUMP_NORM"); d != "" && overlay != nil {
+		os.MkdirAll(d, 0o755)
+		for k, v := range overlay {
+			os.WriteFile(filepath.Join(d, filepath.Base(k)), v, 0o644)
+		}
+	}
+	if overlay != nil {
+		c, err := Load(dir, goarch, tags, overlay)
+		if err == nil {
+			c.NormNotes = notes
+			return c, nil
+		}
+		notes = append(notes, fmt.Sprintf("normalised source rejected (%v); analysing the tree as written", err))
+	}
+	c, err := Load(dir, goarch, tags, nil)
+	if c != nil {
+		c.NormNotes = notes
+	}
+	return c, err
 }
 
 // Load type-checks and builds SSA for the root package of dir (non-test files).
@@ -164,6 +196,7 @@ func (c *Ctx) index() {
 		}
 	}
 	c.computeAliases()
+	c.computeInfeasible()
 }
 
 // addrRoot follows an address expression to the cell it denotes when that is a captured variable:
@@ -654,6 +687,9 @@ func CanReach(f *ssa.Function, from ssa.Instruction, goal func(ssa.Instruction) 
 			continue
 		}
 		for k, s := range w.b.Succs {
+			if edgeInfeasible(w.b, k) {
+				continue
+			}
 			if q.BlockEdge != nil && q.BlockEdge(w.b, k) {
 				continue
 			}
